@@ -20,6 +20,11 @@ impl Memtable {
     pub fn is_empty(&self) -> (r: bool) ensures r == (self.items.len() == 0) { unimplemented!() }
 }
 pub struct SealedMemtables { pub v: Seq<u64> }
+impl SealedMemtables {
+    /// SealedMemtables::add (src/tree/sealed.rs: clone + push): appended at the end, i.e. newest last
+    #[verifier::external_body]
+    pub fn add(&self, memtable: Arc<Memtable>) -> (r: Self) ensures r.v == self.v.push(memtable.id) { unimplemented!() }
+}
 
 impl Default for SealedMemtables { #[verifier::external_body] fn default() -> (r: Self) ensures r.v.len() == 0 { unimplemented!() } }
 pub struct Version { pub id: u64, pub tables: Seq<u64>, pub tree_type: TreeType }
@@ -53,6 +58,11 @@ impl SuperVersions {
     { unimplemented!() }
     #[verifier::external_body]
     pub fn latest_version(&self) -> (r: SuperVersion) requires self.h@.len() > 0 ensures r == self.h@.last() { unimplemented!() }
+    /// contract proved in unit super_versions (C02.5): the newest entry is replaced, nothing is appended
+    #[verifier::external_body]
+    pub fn replace_latest_version(&mut self, version: SuperVersion)
+        ensures old(self).h@.len() > 0 ==> final(self).h@ == old(self).h@.drop_last().push(version), old(self).h@.len() == 0 ==> final(self).h@ == old(self).h@
+    { unimplemented!() }
 }
 pub struct Config { pub path: Path, pub seqno: SequenceNumberCounter, pub visible_seqno: SequenceNumberCounter }
 pub struct Tree { pub config: Config, pub memtable_id_counter: SequenceNumberCounter, pub tt: TreeType }
@@ -94,6 +104,48 @@ impl Tree {
             &config.seqno,
             &config.visible_seqno,
         )
+//@ END
+    }
+}
+//@ WRAPPER_END
+
+//@ WRAPPER_BEGIN
+impl Tree {
+    /// wrapper (generated) around the body of `AbstractTree::rotate_memtable` for Tree after the write lock is taken
+    /// (`version_history_lock` is what the guard derefs to)
+    fn rotate_body(&self, version_history_lock: &mut SuperVersions) -> (r: Option<Arc<Memtable>>)
+        requires old(version_history_lock).h@.len() > 0
+        ensures ({ let o = old(version_history_lock).h@.last(); let h1 = final(version_history_lock).h@;
+            // nothing to rotate: the history is untouched
+            (r is None ==> o.active_memtable.items.len() == 0 && h1 == old(version_history_lock).h@)
+            // rotated: the newest entry is *replaced* (no new entry, so no snapshot resolves differently), same seqno, same version;
+            // the old active memtable is returned and becomes the newest (last) sealed memtable, the new active memtable is empty
+            && (r is Some ==> r->Some_0 == o.active_memtable && o.active_memtable.items.len() > 0
+                && h1.len() == old(version_history_lock).h@.len() && h1.drop_last() == old(version_history_lock).h@.drop_last()
+                && h1.last().seqno == o.seqno && h1.last().version == o.version
+                && h1.last().sealed_memtables.v == o.sealed_memtables.v.push(o.active_memtable.id)
+                && h1.last().active_memtable.items.len() == 0) }),
+    {
+//@ FROM src/tree/mod.rs :: AbstractTree for Tree :: fn rotate_memtable :: STMTS `let super_version =` .. `Some ( yanked_memtable )` :: OBL C02.13, C01.19
+        let super_version = version_history_lock.latest_version();
+
+        if super_version.active_memtable.is_empty() {
+            return None;
+        }
+
+        let yanked_memtable = super_version.active_memtable;
+
+        let mut copy = version_history_lock.latest_version();
+        copy.active_memtable = Arc::new(Memtable::new(self.memtable_id_counter.next()));
+        copy.sealed_memtables =
+            Arc::new(super_version.sealed_memtables.add(yanked_memtable.clone()));
+
+        // Rotate does not modify the memtable so it cannot break snapshots
+        copy.seqno = super_version.seqno;
+
+        version_history_lock.replace_latest_version(copy);
+
+        Some(yanked_memtable)
 //@ END
     }
 }
